@@ -819,6 +819,8 @@ func run(c Sx) Result {
 			}
 		}
 	}
+	// the model appends 1 = "reference model and implementation model agree on this (guarded) history"
+	obs = append(obs, I(1))
 	res.Obs = obs
 	if g.unguarded != "" {
 		tags["unguarded-"+g.unguarded] = true
